@@ -466,9 +466,15 @@ def exec_and_validate(chk, binpath, sub, tv_module, cases_path, jvms=8, what="hi
     chk.cov["evaluations"] += nev
     cases = None
     if bad:
-        cases = open(cases_path).readlines()
+        # records carry the key of their case (plus "#n" when a case yields several records)
+        cases = {}
+        for ln in open(cases_path):
+            try:
+                cases[str(json.loads(ln).get("k"))] = ln
+            except ValueError:
+                pass
     for b in bad:
-        case = json.loads(cases[b["index"]])
+        case = json.loads(cases[str(b["key"]).split("#")[0]])
         chk.violation(b["key"], {"sub": sub, "tv": tv_module, "case": case, "info": b["info"],
                                  "exec_args": exec_args or []},
                       what="%s %s rejected by %s: %s" % (what, b["key"], tv_module, json.dumps(b["info"])[:400]))
